@@ -179,10 +179,6 @@ func propC32(t *rapid.T) {
 		t.Fatalf("%s", ev.HarnessError("generated valid request does not parse: %s: %v", body, perr))
 	}
 	gotLatest, gotEarliest := msg.RequestedBlock()
-	if gotLatest != requested || gotEarliest != requested {
-		// the generator and the parser disagree about which block was requested: the case does not test what it claims to
-		t.Fatalf("%s", ev.HarnessError("generator expected requested block %d, parser reports (%d,%d) for %s", requested, gotLatest, gotEarliest, body))
-	}
 	got := hasArchive(msg)
 	cs := c32Case{Method: m.Name, Block: mem.Blk, Latest: latest, Rule: rule, Body: string(body), Want: want, Got: got}
 
@@ -246,6 +242,11 @@ func propC32(t *rapid.T) {
 	c.Clause("no-other-extension")
 	if n := len(msg.GetExtensions()); (want && n != 1) || (!want && n != 0) {
 		t.Fatalf("%s", ev.Violation("C32", "unexpected extension set %v for request %s latest=%d rule=%d", extNames(msg), body, latest, rule))
+	}
+	if gotLatest != requested || gotEarliest != requested {
+		// the archive marking is right for the block the request asks for, but the parser reports another
+		// requested block than the generator assumes: the case does not test what it claims to
+		t.Fatalf("%s", ev.HarnessError("generator expected requested block %d, parser reports (%d,%d) for %s", requested, gotLatest, gotEarliest, body))
 	}
 }
 
